@@ -430,7 +430,7 @@ theorem writeInner_turn (S : Suite) (hs : HS) (p : Bytes) (cap : Nat) (n : Nat)
   unfold writeInner at h; simp [ht1, hge'] at h
 
 /-- **Length of a successful `_write_message`.** -/
-theorem writeInner_ok (S : Suite) (hE : S.EncLen) (hP : S.PubLen) (hs : HS) (p : Bytes) (cap : Nat) (n : Nat)
+theorem writeInner_ok_len (S : Suite) (hE : S.EncLen) (hP : S.PubLen) (hs : HS) (p : Bytes) (cap : Nat) (n : Nat)
     (hw : KeysWf S hs) (h : (writeInner S hs p cap).1 = .ok n) :
     n = (writeInner S hs p cap).2.acc.length ∧
     n = msgLen S hs.isPsk (hs.msgs.getD hs.pos []) hs.sym.hasKey p.length ∧
